@@ -362,7 +362,7 @@ func C02(ctx *core.Ctx) {
 				continue
 			}
 			steps := []seqStep{{"WriteFieldBegin", isM("WriteFieldBegin")}, {valueWriter, isValue}, {"WriteFieldEnd", isM("WriteFieldEnd")}}
-			checkSequence(ctx, r, "C02.R3", name+" › field bracket", fn, nil, steps, nilErrorReturn)
+			checkSequence(ctx, r, "C02.R3", name+" › field bracket", fn, nil, steps, successReturn)
 			// announced type
 			for _, c := range ssax.Calls(fn) {
 				if c.Method != nil && c.Method.Name() == "WriteFieldBegin" {
